@@ -61,6 +61,13 @@ int main(int argc, char** argv) {
   if (int r = run(A.mode, in, false)) return r;
   printf("the counterexample matrix agrees under IEEE arithmetic; derived diagonally dominant matrix:\n");
   if (int r = run(A.mode, dom, true)) return r;
+  // the same well-conditioned matrix at other scales: diagonal dominance (hence invertibility) does not depend on the magnitude of the entries
+  for (double scale : {1e-6, 1e-11, 1e-15, 1e+8}) {
+    M scaled = dom;
+    for (size_t x = 0; x < 4; x++) for (size_t y = 0; y < 4; y++) scaled.m[x][y] *= scale;
+    printf("scaled by %g:\n", scale);
+    if (int r = run(A.mode, scaled, true)) return r;
+  }
   printf("holds on these inputs\n");
   return 0;
 }
